@@ -825,7 +825,8 @@ func (s *State) extendFunctionEnv(
 		// By definition function parameters are local copies, deref argument values:
 		pval := object.Value(args[paramIdx])
 		needVariable := true
-		if !s.NoReg && pval.Type() == object.INTEGER && env.HasRegisters() {
+		// (an upper case name goes through the regular, constant checking, binding.)
+		if !s.NoReg && pval.Type() == object.INTEGER && env.HasRegisters() && !object.Constant(param.Value().Literal()) {
 			// We will release all these registers just by returning/dropping the env.
 			_, nbody, ok := setupRegister(env, param.Value().Literal(), pval.(object.Integer).Value, newBody)
 			if ok {
@@ -971,7 +972,8 @@ func (s *State) evalForInteger(fe *ast.ForExpression, start *int64, end int64, n
 	var newBody ast.Node
 	var register object.Register
 	newBody = fe.Body
-	if name != "" && !s.NoReg && s.env.HasRegisters() { // else fall back to a plain variable like with NoReg.
+	// else fall back to a plain variable like with NoReg (also for upper case names: those are constants).
+	if name != "" && !s.NoReg && s.env.HasRegisters() && !object.Constant(name) {
 		var ok bool
 		register, newBody, ok = setupRegister(s.env, name, int64(startValue), fe.Body)
 		if !ok {
